@@ -534,3 +534,26 @@ func vh_C20_L13_each_readable_message_wakes_a_reader() {
 	vassert(vCondParked(s.readNotifier) == readers-2, "two messages wake two of the parked readers")
 	vcover("end")
 }
+
+// C20.L14: in blocking-write mode a stream's sequence numbers belong to its write lock. Two
+// writers on one stream are serialised by Stream.writeLock from the moment a number is taken
+// until the message is queued or the number is given back; were a number taken outside it, a
+// failing first writer would roll the counter back under a second writer that already holds
+// the next number (one number lost, one used twice). Declared as a lockset obligation: on
+// every path of an accepted write and of a write that fails at its deadline, the counters
+// are only touched with the write lock held (confirmed natively by the race detector).
+func vh_C20_L14_sequence_numbers_belong_to_the_write_lock() {
+	a, _ := vNewAssocOpts(vAssocOpts{blockWrite: true, interleaving: vPick(2) == 1})
+	s, err := a.OpenStream(1, PayloadTypeWebRTCBinary)
+	vassert(err == nil, "open stream")
+	s.SetReliabilityParams(vPick(2) == 1, ReliabilityTypeReliable, 0)
+	vGuardedBy(&s.sequenceNumber, &s.writeLock, "Stream.sequenceNumber (write serialisation)")
+	vGuardedBy(&s.nextOrderedMID, &s.writeLock, "Stream.nextOrderedMID (write serialisation)")
+	vGuardedBy(&s.nextUnorderedMID, &s.writeLock, "Stream.nextUnorderedMID (write serialisation)")
+	_, w1 := s.WriteSCTP([]byte{1}, PayloadTypeWebRTCBinary)
+	vassert(w1 == nil && a.writePending, "first write accepted, the gate is closed")
+	s.writeDeadline = deadlineExceeded()
+	_, w2 := s.WriteSCTP([]byte{2}, PayloadTypeWebRTCBinary)
+	vassert(w2 != nil, "the second write fails at its deadline and gives its number back")
+	vcover("end")
+}
